@@ -71,6 +71,10 @@ type FieldCacheEntry struct {
 }
 
 func (f *FieldCacheEntry) CanOmit(fieldVal reflect.Value) bool {
+	if !fieldVal.IsValid() {
+		// the field lives in an inlined struct behind a nil pointer
+		return true
+	}
 	if f.isOmitEmpty && (safeIsNil(fieldVal) || isEmpty(fieldVal)) {
 		return true
 	}
@@ -80,11 +84,17 @@ func (f *FieldCacheEntry) CanOmit(fieldVal reflect.Value) bool {
 	return false
 }
 
-// GetFrom returns the field identified by this FieldCacheEntry from the provided struct.
+// GetFrom returns the field identified by this FieldCacheEntry from the provided struct, or the
+// invalid reflect.Value if the field is in an inlined struct behind a nil pointer.
 func (f *FieldCacheEntry) GetFrom(structVal reflect.Value) reflect.Value {
 	// field might be nested within 'inline' structs
 	for _, elem := range f.fieldPath {
-		structVal = dereference(structVal).FieldByIndex(elem)
+		structVal = dereference(structVal)
+		if structVal.Kind() == reflect.Ptr {
+			// an inlined struct behind a nil pointer has no fields, as in encoding/json
+			return reflect.Value{}
+		}
+		structVal = structVal.FieldByIndex(elem)
 	}
 	return structVal
 }
